@@ -157,6 +157,8 @@ type Exec struct {
 	relyPtr, guarPtr, relyVal, guarVal *Term
 	tailrec     map[string]bool
 	nAtomic     int
+	sharedVals  []*Term
+	valueSort   *Sort
 	recFuel     map[*ssa.Function]int
 	nFrame      int
 	frameOff    bool
